@@ -48,4 +48,9 @@
 #	endif
 #endif
 
+/* CHK(c): inside a bool-returning pre/post function: fail the clause and record which line failed
+ * (shows up as verif_why in the counterexample trace and in native replays) */
+static int verif_why;
+#define CHK(c) do { if (!(c)) { verif_why = __LINE__; return false; } } while (0)
+
 #endif
